@@ -828,7 +828,8 @@ def cases(tier, seed):
     add('bipartite', ['glrd', 2, 2, 1, 1])
     add('bipartite', ['regular', 2])
     for (L, Rr) in [(1, 1), (2, 3), (3, 2), (3, 3), (0, 2), (2, 0)]:
-        for pat in [[], [0], [1], [0, 1], [1, 0], [0, Rr], [Rr + 1], [-1], [1, 1], [0, 1, 2]]:
+        for pat in [[], [0], [1], [0, 1], [1, 0], [0, Rr], [Rr + 1], [-1], [1, 1], [0, 1, 2],
+                    [1, 2, 1], [2, 0, 1, 2], [0, 2, 1], [2, 1, 0], [1, 0, 1, 0]]:
             add('bipartite', ['shift', L, Rr] + pat)
     add('bipartite', ['shift', 3])
     for (L, Rr) in sides:
